@@ -156,6 +156,32 @@ class ProbeCtorError(pjrpc.exceptions.JsonRpcError):
 LIB_ERRORS = ('ParseError', 'InvalidRequestError', 'MethodNotFoundError', 'InvalidParamsError', 'InternalError', 'ServerError')
 
 
+def _app_module(name: str, source: str):
+    """a synthetic application module (registered in sys.modules, as an imported one would be)"""
+    import sys
+    import types
+    m = sys.modules.get(name)
+    if m is None:
+        m = types.ModuleType(name)
+        sys.modules[name] = m
+        exec(compile(source, f'<{name}>', 'exec', dont_inherit=True), m.__dict__)
+    return m
+
+
+# two application modules written the same way: each has a model called `Item` and a function `create(item: 'Item') -> 'str'`
+# (string annotations, resolved in the function's own module) - textually identical signatures, different classes
+SHOP_USERS = _app_module('zq7_shop_users', 'import pydantic\n\n\nclass Item(pydantic.BaseModel):\n    name: str\n')
+SHOP_ORDERS = _app_module('zq7_shop_orders', 'import pydantic\n\n\nclass Item(pydantic.BaseModel):\n    sku: int\n    qty: int = 1\n')
+
+
+def _shop_function(module, log, tag, render):
+    ns = {'__name__': module.__name__, '_log': log, '_render': render}
+    src = ("def create(item: 'Item') -> 'str':\n    d = item.model_dump()\n"
+           f"    _log.calls.append(({tag!r}, (d,), {{}}))\n    return _render(d)\n")
+    exec(compile(src, f'<{module.__name__}>', 'exec', dont_inherit=True), ns)
+    return ns['create']
+
+
 class CtorFailed(Exception):
     """Raised by a probe when pjrpc refuses to construct the protocol error it was asked to raise."""
 
@@ -458,6 +484,10 @@ def make_methods(log: Log, is_async: bool) -> Dict[str, Callable[..., Any]]:
     pd_asis.__annotations__ = {'a': int, 'b': int}
     fac['pd_asis'] = _vpd.PydanticValidator(coerce=False).validate(pd_asis)
 
+    # one validator object, two modules, the same signature text
+    fac['users.create'] = pd_validator.validate(_shop_function(SHOP_USERS, log, 'users.create', lambda d: ['user', d['name']]))
+    fac['orders.create'] = pd_validator.validate(_shop_function(SHOP_ORDERS, log, 'orders.create', lambda d: ['order', d['sku'], d['qty']]))
+
     def rpc_ping(a=0):
         # registered under a name inside the namespace the specification reserves for extensions: a method like any other
         log.calls.append(('rpc.ping', (a,), {}))
@@ -658,7 +688,7 @@ def make_broken_view(log: Log, is_async: bool):
 METHOD_NAMES = ('js_checked', 'js_loose', 'slowfail', 'byid', 'wrapped', 'whoami', 'ctxp', 'slow', 'fac1', 'fac2', 'ok', 'noargs', 'echo', 'kwonly', 'rpcerr', 'typed', 'boom', 'ctxm', 'view.vm', 'typedctor', 'raiselib', 'pd_pos', '_under',
                 'ns._dotted', 'cowrapped', 'js_draft4', 'window', 'mutate', 'broken.vm', 'odd_defaults', 'tc_only',
                 'pd_strip', 'view.cm', 'view.sm', 'cnt.bump', 'pd_even', 'js_list', 'ctxm_plain', 'pd_span', 'view.note', 'pd_asis', 'rpc.ping', 'js_ref',
-                'keyed', 'stale')
+                'keyed', 'stale', 'users.create', 'orders.create')
 
 
 def build_registry(log: Log, coroutines: bool) -> 'pjrpc.server.MethodRegistry':
